@@ -1,0 +1,113 @@
+//go:build verif
+
+// Contracts for the verification machinery in /verif (comment-only; no declarations).
+// C10: the basic connection gater's decisions are exactly "not in the rule set"; every rule change is written
+// to the datastore before the in-memory set changes, and only changes memory when the write succeeded.
+
+package conngater
+
+//@ pred addrBlocked(cg *BasicConnectionGater, ip net.IP) = has(cg.blockedAddrs, ip.String()) ||
+//@         (exists k string :: has(cg.blockedSubnets, k) && cg.blockedSubnets[k].Contains(ip))
+
+//@ func (cg *BasicConnectionGater) InterceptPeerDial
+//@ prop C10
+//@ ensures allow == !has(cg.blockedPeers, p)
+//@ modifies nothing
+
+//@ func (cg *BasicConnectionGater) InterceptAddrDial
+//@ prop C10
+//@ ensures nth(manet.ToIP(a), 1) == nil ==> allow == !addrBlocked(cg, nth(manet.ToIP(a), 0))
+//@ ensures nth(manet.ToIP(a), 1) != nil ==> allow
+//@ loop 0 invariant forall k string :: visited(0, k) ==> !cg.blockedSubnets[k].Contains(ip)
+//@ modifies nothing
+
+//@ func (cg *BasicConnectionGater) InterceptAccept
+//@ prop C10
+//@ ensures called(RemoteMultiaddr, 0) && arg(RemoteMultiaddr, 0, 0) == cma
+//@ ensures nth(manet.ToIP(a), 1) == nil ==> allow == !addrBlocked(cg, nth(manet.ToIP(a), 0))
+//@ ensures nth(manet.ToIP(a), 1) != nil ==> allow
+//@ loop 0 invariant forall k string :: visited(0, k) ==> !cg.blockedSubnets[k].Contains(ip)
+//@ modifies nothing
+
+//@ func (cg *BasicConnectionGater) InterceptSecured
+//@ prop C10
+//@ ensures dir != network.DirOutbound ==> allow == !has(cg.blockedPeers, p)
+//@ ensures dir == network.DirOutbound ==> allow
+//@ modifies nothing
+
+//@ func (cg *BasicConnectionGater) BlockPeer
+//@ prop C10
+//@ ensures result == nil ==> has(cg.blockedPeers, p)
+//@ ensures result == nil && cg.ds != nil ==> called(Put, 0) && ret(Put, 0, 0) == nil && strsrc(arg(Put, 0, 3)) == p
+//@ ensures result != nil ==> has(cg.blockedPeers, p) == old(has(cg.blockedPeers, p))
+//@ ensures forall q peer.ID :: q != p ==> has(cg.blockedPeers, q) == old(has(cg.blockedPeers, q))
+//@ assert before Lock#0: cg.ds != nil ==> called(Put, 0) && ret(Put, 0, 0) == nil
+//@ modifies contents(cg.blockedPeers), elems(_)
+
+//@ func (cg *BasicConnectionGater) UnblockPeer
+//@ prop C10
+//@ ensures result == nil ==> !has(cg.blockedPeers, p)
+//@ ensures result == nil && cg.ds != nil ==> called(Delete, 0) && ret(Delete, 0, 0) == nil
+//@ ensures result != nil ==> has(cg.blockedPeers, p) == old(has(cg.blockedPeers, p))
+//@ ensures forall q peer.ID :: q != p ==> has(cg.blockedPeers, q) == old(has(cg.blockedPeers, q))
+//@ assert before Lock#0: cg.ds != nil ==> called(Delete, 0) && ret(Delete, 0, 0) == nil
+//@ modifies contents(cg.blockedPeers)
+
+//@ func (cg *BasicConnectionGater) BlockAddr
+//@ prop C10
+//@ ensures result == nil ==> has(cg.blockedAddrs, ip.String())
+//@ ensures result == nil && cg.ds != nil ==> called(Put, 0) && ret(Put, 0, 0) == nil
+//@ ensures result != nil ==> forall k string :: has(cg.blockedAddrs, k) == old(has(cg.blockedAddrs, k))
+//@ ensures forall k string :: k != ip.String() ==> has(cg.blockedAddrs, k) == old(has(cg.blockedAddrs, k))
+//@ assert before Lock#0: cg.ds != nil ==> called(Put, 0) && ret(Put, 0, 0) == nil
+//@ modifies contents(cg.blockedAddrs), elems(_)
+
+//@ func (cg *BasicConnectionGater) UnblockAddr
+//@ prop C10
+//@ ensures result == nil ==> !has(cg.blockedAddrs, ip.String())
+//@ ensures result == nil && cg.ds != nil ==> called(Delete, 0) && ret(Delete, 0, 0) == nil
+//@ ensures result != nil ==> forall k string :: has(cg.blockedAddrs, k) == old(has(cg.blockedAddrs, k))
+//@ ensures forall k string :: k != ip.String() ==> has(cg.blockedAddrs, k) == old(has(cg.blockedAddrs, k))
+//@ assert before Lock#0: cg.ds != nil ==> called(Delete, 0) && ret(Delete, 0, 0) == nil
+//@ modifies contents(cg.blockedAddrs)
+
+//@ func (cg *BasicConnectionGater) BlockSubnet
+//@ prop C10
+//@ ensures result == nil ==> has(cg.blockedSubnets, ipnet.String()) && cg.blockedSubnets[ipnet.String()] == ipnet
+//@ ensures result == nil && cg.ds != nil ==> called(Put, 0) && ret(Put, 0, 0) == nil
+//@ ensures result != nil ==> forall k string :: has(cg.blockedSubnets, k) == old(has(cg.blockedSubnets, k))
+//@ ensures forall k string :: k != ipnet.String() ==> has(cg.blockedSubnets, k) == old(has(cg.blockedSubnets, k)) &&
+//@         cg.blockedSubnets[k] == old(cg.blockedSubnets[k])
+//@ assert before Lock#0: cg.ds != nil ==> called(Put, 0) && ret(Put, 0, 0) == nil
+//@ modifies contents(cg.blockedSubnets), elems(_)
+
+//@ func (cg *BasicConnectionGater) UnblockSubnet
+//@ prop C10
+//@ ensures result == nil ==> !has(cg.blockedSubnets, ipnet.String())
+//@ ensures result == nil && cg.ds != nil ==> called(Delete, 0) && ret(Delete, 0, 0) == nil
+//@ ensures result != nil ==> forall k string :: has(cg.blockedSubnets, k) == old(has(cg.blockedSubnets, k))
+//@ ensures forall k string :: k != ipnet.String() ==> has(cg.blockedSubnets, k) == old(has(cg.blockedSubnets, k)) &&
+//@         cg.blockedSubnets[k] == old(cg.blockedSubnets[k])
+//@ assert before Lock#0: cg.ds != nil ==> called(Delete, 0) && ret(Delete, 0, 0) == nil
+//@ modifies contents(cg.blockedSubnets)
+
+//@ func (cg *BasicConnectionGater) loadRules
+//@ prop C10
+//@ ensures result == nil ==> called(Query, 0) && ret(Query, 0, 1) == nil && called(Query, 1) && ret(Query, 1, 1) == nil &&
+//@         called(Query, 2) && ret(Query, 2, 1) == nil
+//@ loop 0 iteration string(p) == string(r.Entry.Value) && has(cg.blockedPeers, p)
+//@ loop 0 invariant forall q peer.ID :: old(has(cg.blockedPeers, q)) ==> has(cg.blockedPeers, q)
+//@ loop 1 iteration has(cg.blockedAddrs, ip.String()) && ip == r.Entry.Value
+//@ loop 1 invariant forall k string :: old(has(cg.blockedAddrs, k)) ==> has(cg.blockedAddrs, k)
+//@ loop 2 iteration ipnetStr == string(r.Entry.Value) && has(cg.blockedSubnets, ipnetStr) && cg.blockedSubnets[ipnetStr] == ipnet &&
+//@         called(ParseCIDR, 0) && ret(ParseCIDR, 0, 2) == nil && ipnet == ret(ParseCIDR, 0, 1)
+//@ loop 2 invariant forall k string :: old(has(cg.blockedSubnets, k)) ==> has(cg.blockedSubnets, k)
+//@ modifies contents(cg.blockedPeers), contents(cg.blockedAddrs), contents(cg.blockedSubnets)
+
+//@ func NewBasicConnectionGater
+//@ prop C10
+//@ ensures result1 == nil && ds != nil ==> called(loadRules, 0) && ret(loadRules, 0, 0) == nil
+//@ ensures result1 == nil ==> result0 != nil && result0.blockedPeers != nil && result0.blockedAddrs != nil && result0.blockedSubnets != nil
+//@ ensures result1 == nil && ds == nil ==> (forall q peer.ID :: !has(result0.blockedPeers, q)) && (forall k string :: !has(result0.blockedAddrs, k)) &&
+//@         (forall k string :: !has(result0.blockedSubnets, k))
+//@ noframe
